@@ -147,6 +147,27 @@ def py_diff(ctx):
             ctx.require(c)
 
 
+def range_proofs(ctx):
+    """Unbounded part of the design-level argument for the range coder: TLAPS checks spec/proofs/RangeCore.tla (EncoderSound: every
+    point of the sub-interval the encoder selects is decoded as that symbol; DecoderStep: the decoder's offset stays inside the
+    interval through a symbol and through the renormalisation by one word, and the interval never becomes empty) for ALL widths and
+    precisions; TLC checks at small widths that Range.tla's operators compute the quantities the theorems speak about."""
+    import shutil, subprocess, re
+    wd = os.path.join(ctx.work, "proofs_range")
+    shutil.copytree(os.path.join(core.SPEC, "proofs"), wd, ignore=shutil.ignore_patterns(".tlacache"))
+    p = subprocess.run(["timeout", "1500", "tlapm", "--threads", "6", "--cleanfp", "RangeCore.tla"], cwd=wd, stdout=subprocess.PIPE, stderr=subprocess.STDOUT, text=True)
+    m = re.search(r"All (\d+) obligations proved", p.stdout)
+    if not m:
+        raise core.ToolError("TLAPS did not prove spec/proofs/RangeCore.tla:\n" + p.stdout[-1500:])
+    ctx.classes["tlaps_obligations_proved"] = ctx.classes.get("tlaps_obligations_proved", 0) + int(m.group(1))
+    ctx.assumptions.append("TLAPS 1.6 (SMT back end Z3) checks proofs correctly")
+    for (w, s, md) in [(2, 4, 3), (3, 6, 1)] + ([(2, 6, 2), (4, 8, 1)] if ctx.tier == "thorough" else []):
+        st = ctx.tlc("MC_RangeBridge", {"W": w, "S": s, "MaxData": md}, invariants=["DecBridge", "EncBridge"], workers=12, timeout=3000, label="MC_RangeBridge_%d_%d" % (w, s))
+        if st["spec_violation"]:
+            raise core.ToolError("MC_RangeBridge: Range.tla does not compute the step proved in spec/proofs at W=%d S=%d:\n%s" % (w, s, st.get("counterexample", "")))
+    ctx.require("tlaps_obligations_proved", 200)
+
+
 def ans_proofs(ctx):
     """Unbounded part of the design-level argument for the rANS step: TLAPS checks the proofs in spec/proofs (AnsCore: the
     coding step without renormalisation is invertible; AnsStep: theorems EncodeStep and DecodeStep - with the flush / refill of one
@@ -301,6 +322,7 @@ def range_steered(ctx, exact):
 
 @prop("C02")
 def c02(ctx):
+    range_proofs(ctx)
     py_traces(ctx, ["range"])
     py_diff(ctx)
     range_traces(ctx, exact=False)
